@@ -10,6 +10,9 @@ BOOL = ("bool",)
 INT = ("int", 32, True)
 DOUBLE = ("real", "double")
 
+# not rejected by ASan/UBSan (IEEE semantics: inf/nan), so outside C20; checked only with the functional contracts
+SOFT_KINDS = {"fdiv-zero", "domain-sqrt", "domain-asin", "domain-acos", "domain-log"}
+
 PURE_MATH = {"sqrt", "sin", "cos", "atan2", "fabs", "floor", "asin", "acos", "log", "exp", "sqrtf",
              "fabsf", "floorf", "ceil", "pow"}
 DROPPED_CALLS = {"printf", "puts", "fprintf", "fflush", "putchar"}
@@ -43,6 +46,7 @@ class FnExec:
         self.c = contract
         self.prop = prop
         self.opt = options or {}
+        self.mode = self.opt.get("mode", "full")     # 'safety': clauses tagged with a property are neither assumed nor checked
         K.SINK.reset()
         self.facts = []
         self.axioms = []
@@ -67,6 +71,16 @@ class FnExec:
         self.heap_owned = set()
         self.omp_tid = None
 
+    def clauses(self, lst):
+        """(tag, text) pairs of a contract clause list, tagged (functional) ones dropped in safety mode"""
+        out = []
+        for c in lst:
+            tag, txt = (c if isinstance(c, tuple) else (None, c))
+            if tag is not None and self.mode == "safety":
+                continue
+            out.append((tag, txt))
+        return out
+
     # ------------------------------------------------------------------ utilities
     def const_int(self, t):
         if isinstance(t, int):
@@ -89,6 +103,8 @@ class FnExec:
         self.axioms.extend(K.SINK.drain())
 
     def oblige(self, state, kind, node, goal, label=None, prop=None):
+        if self.mode == "safety" and kind in SOFT_KINDS:
+            return
         goal = smt.boolean(goal)
         g = z3.simplify(goal)
         trivial = z3.is_true(g)
@@ -144,7 +160,7 @@ class FnExec:
         self.entry = st.copy()
         self.state0 = st
         # preconditions
-        for i, r in enumerate(c.requires):
+        for tag, r in self.clauses(c.requires):
             self.facts.append(smt.boolean(K.evaluate(r, self.namespace(st, st))))
         self.drain_axioms()
         self.nfacts_pre = len(self.facts)
